@@ -278,7 +278,7 @@ Section WithAddresses.
     wf_paymentb addr p = true /\ valid_paymentb addr can_memo t_only p = true.
   Proof.
     intros G N. unfold to_payment. destruct (find_addr addr ps) as [a|]; [|discriminate]. intros H.
-    apply apply_params_ok in H; [|exact G | repeat split].
+    apply apply_params_ok in H; [|exact G | repeat split; try reflexivity; unfold zero_transparent_rule; cbn [p_addr p_amount]; rewrite andb_false_r; reflexivity].
     destruct H as [(W & M & Zr & O) Ot]. cbn [p_other app] in Ot.
     split; [exact W|]. unfold valid_paymentb. rewrite M, Zr, O. cbn [andb].
     unfold no_duplicate_rule. rewrite Ot. eapply pnodup_others_nodup; exact N.
